@@ -4,6 +4,7 @@ import (
 	"bytes"
 	"encoding/json"
 	"fmt"
+	parser "github.com/openfga/language/pkg/go/gen"
 	"io"
 	"os"
 	"os/exec"
@@ -147,6 +148,20 @@ func runOp(op, text string, more []string) string {
 			out += "|" + k + "=" + r.res[k]
 		}
 		return out
+	case "vocab":
+		// the vocabularies the generated Go package reports at run time; text says which half is initialised first
+		var pr *parser.OpenFGAParser
+		var lx *parser.OpenFGALexer
+		if text == "parser-first" {
+			pr = parser.NewOpenFGAParser(nil)
+			lx = parser.NewOpenFGALexer(nil)
+		} else {
+			lx = parser.NewOpenFGALexer(nil)
+			pr = parser.NewOpenFGAParser(nil)
+		}
+		b, _ := json.Marshal(map[string][]string{"parser.rules": pr.RuleNames, "parser.literal": pr.LiteralNames, "parser.symbolic": pr.SymbolicNames,
+			"lexer.rules": lx.RuleNames, "lexer.literal": lx.LiteralNames, "lexer.symbolic": lx.SymbolicNames})
+		return string(b)
 	case "modfile":
 		mf, err := transformer.TransformModFile(text)
 		if err != nil {
